@@ -555,9 +555,16 @@ def _present_keys(explainable: Explainable, options: Options) -> Set[str]:
     """
     try:
         keys = explainable.explain(options)
+    except InsufficientInformationError as e:
+        # A branch could not be chosen because a selector (the dispatch of a switch,
+        # the source of a bind) could not be evaluated: that selector decided the
+        # failure, so depend on whatever it depends on.
+        selector = getattr(e.source, "dispatch", getattr(e.source, "evaluatable", None))
+        if isinstance(selector, Explainable) and selector is not explainable:
+            return _present_keys(selector, options)
+        return set(options.keys())
     except Exception:  # noqa: E722
-        # What it depends on cannot be determined (e.g. a dispatch that cannot be
-        # evaluated): anything present may have contributed to the failure.
+        # Unknown: anything present may have contributed to the failure.
         return set(options.keys())
 
     return {key for key in keys if dotted_key_exists(key, options)}
